@@ -124,3 +124,31 @@ func TestF7d_FlashCookieWireSafe(t *testing.T) {
 		}
 	}
 }
+
+// F26: the flash cookie is issued with Path=/ but expired without a Path attribute. For a landing URL
+// below a directory (/a/next) an RFC 6265 client files the expiry under the default path /a and keeps
+// the original: the messages are presented again.
+func TestF26_FlashCookieIsExpiredOnItsOwnPath(t *testing.T) {
+	app := fiber.New()
+	app.Get("/go", func(c fiber.Ctx) error { return c.Redirect().With("k", "v", 65).To("/a/next") })
+	app.Get("/a/next", func(c fiber.Ctx) error { return nil })
+	rc := do(app, "GET", "/go")
+	set := string(rc.Response.Header.PeekCookie("fiber_flash"))
+	if !strings.Contains(strings.ToLower(set), "path=/") {
+		t.Skipf("precondition: the flash cookie is not issued with path=/ (%q)", set)
+	}
+	// present a (wire-safe) flash cookie on a landing URL below a directory
+	var rc2 fasthttp.RequestCtx
+	raw := []byte("GET /a/next HTTP/1.1\r\nHost: x\r\nCookie: fiber_flash=\x91\x82\xa3key\xa1a\xa5value\xa1b\r\n\r\n")
+	if err := rc2.Request.Header.Read(bufReader(raw)); err != nil {
+		t.Fatal(err)
+	}
+	app.Handler()(&rc2)
+	exp := string(rc2.Response.Header.PeekCookie("fiber_flash"))
+	if exp == "" {
+		t.Fatal("precondition: the cookie was not consumed")
+	}
+	if !strings.Contains(strings.ToLower(exp), "path=/") {
+		t.Fatalf("issued as %q but expired as %q: a client requesting /a/next files the expiry under /a and keeps the cookie", set, exp)
+	}
+}
